@@ -75,7 +75,7 @@ SPEC = dict(
          "that plus depth <= 3 with at most two simultaneously live views (full alphabet) plus depth <= 4 with one view over the 'medium' alphabet (complete "
          "view alphabet, mutation operands reduced to the fixed list keep_reduced() in drv/c14_apply.hpp).  Both tiers add the deep, narrow 'traversal' alphabet "
          "(keep_traversal(): every NodeIterator/TreeWalker configuration, nextNode/previousNode and the seven walker moves, every removeChild, four "
-         "re-insertions) to depth 6 (quick) / 7 (thorough): positions such as 'last movement was previousNode() and the reference node is the tail of the "
+         "re-insertions) to depth 6 (quick) / 8 (thorough): positions such as 'last movement was previousNode() and the reference node is the tail of the "
          "iteration' need creation + n x nextNode + previousNode + removal and are out of reach of depth 3/4.  distinct_nontrivial = distinct states (by key) "
          "with at least one live view.  The space 'known-defect-witnesses' executes the fixed witness history of each KNOWN_DEFECTS entry without guards.",
     trusted_base=["reference DOM L2 Traversal/Range model drv/c14_ref.hpp + drv/c14_apply.hpp (written from the recommendation text restated in DOMRange.hpp, "
@@ -102,7 +102,7 @@ SPEC = dict(
     runs=dict(
         quick=[_WITNESSES, _explore("one-view-depth3", 1, 3), _explore("traversal-depth6", 1, 6, "traversal")],
         thorough=[_WITNESSES, _explore("one-view-depth3", 1, 3), _explore("two-views-depth3", 2, 3), _explore("one-view-depth4-medium", 1, 4, "medium"),
-                  _explore("traversal-depth7", 1, 7, "traversal")],
+                  _explore("traversal-depth8", 1, 8, "traversal")],
     ),
     manifest=dict(
         text="model checking: complete breadth-first exploration, with state merging, of all operation histories up to the stated depth that interleave tree/text "
